@@ -19,7 +19,7 @@ Driver for C13.  All tokens after the op kind are integers.
                                           -> `hresp 0` (rejected) | `hresp 1` + observation block of the pod the API server
                                              STORES for slot 0 (PodMutatingHandler.Handle + JSON patch); slot 0 is kept.
                                              op: 0 CREATE 1 UPDATE 2 DELETE 3 CONNECT; sub: 0 = no sub-resource
-  hvalidate <op> <sub> <isPods> <hasObj> <hasOld> <oldDeleting> <newDeleting> <finalizers> <statusOnly> <gateSkipPriority>
+  hvalidate <op> <sub> <isPods> <hasObj> <hasOld> <oldDeleting> <newDeleting> <finalizers> <oldFinalizers> <statusOnly> <gateSkipPriority>
                                           -> `hverdict <0|1>` (PodValidatingHandler.Handle admits; slot 0 = object, 1 = old object)
   POD  = LSTR(qos label) LSTR(priority-class label) LSTR(c13/src label) <hasPrio> <prio> <hasSub> <sub> <statusQoS>
          <ANNOT> <nInit> <nCtr> <hasOv> <hasPodRes> CTR* [RL(overhead)] [RL(pod requests) RL(pod limits)]
@@ -334,12 +334,12 @@ def stepLine (st : St) (line : String) : St × List String :=
     | _, _ => (st, ["bad-op"])
   | "hvalidate" :: rest =>
     match ints? rest, st.cur with
-    | some [op, sub, isPods, hasObj, hasOld, od, nd, fin, so, gate], some new =>
+    | some [op, sub, isPods, hasObj, hasOld, od, nd, fin, ofin, so, gate], some new =>
       match opOfCode op with
       | none => (st, ["bad-op"])
       | some o =>
         let e : Envelope := { op := o, subresource := sub ≠ 0, isPods := isPods ≠ 0, hasObject := hasObj ≠ 0, hasOld := hasOld ≠ 0 }
-        let sh : ObjShape := { oldDeleting := od ≠ 0, newDeleting := nd ≠ 0, finalizers := fin ≠ 0, statusOnly := so ≠ 0 }
+        let sh : ObjShape := { oldDeleting := od ≠ 0, newDeleting := nd ≠ 0, finalizers := fin ≠ 0, oldFinalizers := ofin ≠ 0, statusOnly := so ≠ 0 }
         (st, [s!"hverdict {b2i (handleValidating stdRanges e sh (gate ≠ 0) (st.old.getD new) new)}"])
     | _, _ => (st, ["bad-op"])
   | "mutate" :: rest =>
